@@ -42,6 +42,8 @@ func runC20(c *Ctx) {
 		c20Wrap(c, w)
 	}
 	poolNewFresh(c, "C20", []string{"syncutil", "netutil/httputil"}, 2)
+	c.L.Floor("C20.ctx-logger", 2)
+	c20ContextLogger(c)
 	mwWrap := c.fn("netutil/httputil", "LogMiddleware.Wrap")
 	if mwWrap == nil {
 		return
@@ -704,4 +706,125 @@ func poolNewFresh(c *Ctx, prop string, pkgs []string, floor int) {
 	if n == 0 {
 		c.undecided(prop+".pool.fresh-new", nil, "NewPool call sites", nil, "none found")
 	}
+}
+
+// c20ContextLogger: the context helper the middleware relies on gives every
+// request a context of its own.  ContextWithLogger returns, on every path,
+// context.WithValue(parent, key, l) — a fresh child whose value is the logger
+// itself, never the parent or a shared holder that a later call overwrites —
+// and LoggerFromContext returns the value stored under the same key.
+func c20ContextLogger(c *Ctx) {
+	const rule = "C20.ctx-logger"
+	with := c.fn("logutil/slogutil", "ContextWithLogger")
+	from := c.fn("logutil/slogutil", "LoggerFromContext")
+	if with == nil || from == nil || len(with.Params) != 2 || len(from.Params) != 1 {
+		c.undecided(rule, nil, "slogutil.ContextWithLogger / LoggerFromContext", nil, "not found")
+		return
+	}
+	c.L.Saw(core.FuncName(with))
+	c.L.Saw(core.FuncName(from))
+	var key ssa.Value
+	for _, ret := range core.Returns(with) {
+		okR, why := false, "the result is not context.WithValue(parent, key, l)"
+		var walk func(v ssa.Value, depth int) bool
+		walk = func(v ssa.Value, depth int) bool {
+			if depth > 4 {
+				return false
+			}
+			switch x := v.(type) {
+			case *ssa.Phi:
+				for _, e := range x.Edges {
+					if !walk(e, depth+1) {
+						return false
+					}
+				}
+				return true
+			case *ssa.Call:
+				if core.CalleeName(&x.Call) != "context.WithValue" || len(x.Call.Args) != 3 {
+					return false
+				}
+				if x.Call.Args[0] != ssa.Value(with.Params[0]) {
+					why = "the child is not derived from the parent given"
+					return false
+				}
+				mi, isMI := x.Call.Args[2].(*ssa.MakeInterface)
+				if !isMI || mi.X != ssa.Value(with.Params[1]) {
+					why = "the value stored in the context is not the logger itself (a holder that is written later is shared by every context that carries it)"
+					return false
+				}
+				key = x.Call.Args[1]
+				return true
+			}
+			if v == ssa.Value(with.Params[0]) {
+				why = "the parent context itself is returned: the logger must have been put somewhere all its users share"
+			}
+			return false
+		}
+		okR = walk(ret.Results[0], 0)
+		c.check(okR, rule, with, "ContextWithLogger returns context.WithValue(parent, key, l)", ret, "a context of its own per request: "+why)
+	}
+	// no effects besides deriving the context
+	core.EachInstr(with, func(in ssa.Instruction) {
+		if st, ok := in.(*ssa.Store); ok {
+			if _, local := core.Unwrap(st.Addr).(*ssa.Alloc); !local {
+				c.check(false, rule, with, "ContextWithLogger writes nothing but its result", st, "a store to memory other contexts can reach")
+			}
+		}
+	})
+	// the reader looks under the same key and returns that value
+	okKey, okVal := false, false
+	var valCall *ssa.Call
+	core.EachInstr(from, func(in ssa.Instruction) {
+		call, ok := in.(*ssa.Call)
+		if !ok || !call.Call.IsInvoke() || call.Call.Method.Name() != "Value" || call.Call.Value != ssa.Value(from.Params[0]) {
+			return
+		}
+		valCall = call
+		if key != nil && sameConstOrGlobal(call.Call.Args[0], key) {
+			okKey = true
+		}
+	})
+	for _, ret := range core.Returns(from) {
+		if ta, ok := ret.Results[0].(*ssa.TypeAssert); ok && valCall != nil && ta.X == ssa.Value(valCall) {
+			okVal = true
+		}
+		if ex, ok := ret.Results[0].(*ssa.Extract); ok {
+			if ta, ok := ex.Tuple.(*ssa.TypeAssert); ok && valCall != nil && ta.X == ssa.Value(valCall) && ex.Index == 0 {
+				okVal = true
+			}
+		}
+	}
+	c.check(okKey && okVal, rule, from, "LoggerFromContext returns ctx.Value(the same key) asserted to *slog.Logger", valCall, "the logger read is the one stored for this context")
+}
+
+// sameConstOrGlobal: two key expressions denote the same constant or the same
+// package-level variable.
+func sameConstOrGlobal(a, b ssa.Value) bool {
+	strip := func(v ssa.Value) ssa.Value {
+		for {
+			switch x := v.(type) {
+			case *ssa.MakeInterface:
+				v = x.X
+			case *ssa.ChangeType:
+				v = x.X
+			case *ssa.UnOp:
+				if x.Op != token.MUL {
+					return v
+				}
+				if g, ok := x.X.(*ssa.Global); ok {
+					return g
+				}
+				return v
+			default:
+				return v
+			}
+		}
+	}
+	a, b = strip(a), strip(b)
+	if a == b {
+		return true
+	}
+	ka, okA := a.(*ssa.Const)
+	kb, okB := b.(*ssa.Const)
+	return okA && okB && types.Identical(ka.Type(), kb.Type()) && ka.Value != nil && kb.Value != nil && ka.Value.ExactString() == kb.Value.ExactString()
 }
